@@ -47,6 +47,7 @@ func newEnv() *env {
 	e.bus = eventbus.New(eventbus.WithStore(e.ms))
 	bp.Types[0].Sub(e.bus, 0, evt.SubOpts{})
 	bp.Types[1].Sub(e.bus, 0, evt.SubOpts{Async: true})
+	extraType().Sub(e.bus, 0, evt.SubOpts{Async: true, Sequential: true})
 	bp.Types[2].Sub(e.bus, 0, evt.SubOpts{Once: true})
 	eventbus.RegisterUpcastFunc(e.bus, "old", "new", func(d json.RawMessage) (json.RawMessage, string, error) { return d, "new", nil })
 	e.ms.Append(context.Background(), &eventbus.Event{Type: "old", Data: json.RawMessage(`{}`), Timestamp: time.Unix(1, 0)})
@@ -63,6 +64,16 @@ func newEnv() *env {
 	return e
 }
 
+// extraType is a pooled event type that is none of the three picked ones.
+func extraType() *evt.TypeOps {
+	for _, t := range evt.Pool {
+		if t != bp.Types[0] && t != bp.Types[1] && t != bp.Types[2] {
+			return t
+		}
+	}
+	return evt.Pool[len(evt.Pool)-1]
+}
+
 type action struct {
 	name string
 	run  func(e *env)
@@ -75,6 +86,14 @@ func actions() []action {
 		{"PublishSync", func(e *env) { bp.Types[0].Pub(e.bus, 2) }},
 		{"PublishAsync", func(e *env) { bp.Types[1].Pub(e.bus, 4) }},
 		{"PublishOnce", func(e *env) { bp.Types[2].Pub(e.bus, 6) }},
+		// a fourth event type with an Async+Sequential handler, published live and with an
+		// already-cancelled context
+		{"PublishAsyncSeq", func(e *env) { extraType().Pub(e.bus, 10) }},
+		{"PublishAsyncSeqCancelled", func(e *env) {
+			ctx, cancel := context.WithCancel(bg)
+			cancel()
+			extraType().PubCtx(e.bus, ctx, 8)
+		}},
 		{"Subscribe", func(e *env) { bp.Types[0].Sub(e.bus, 1, evt.SubOpts{}) }},
 		{"SubscribeAsync", func(e *env) { bp.Types[1].Sub(e.bus, 1, evt.SubOpts{Async: true}) }},
 		{"Unsubscribe", func(e *env) { bp.Types[0].Unsub(e.bus, 0, false) }},
